@@ -344,7 +344,11 @@ class World:
             elif row.evt is not None and row.evt != ev.name:
                 # base-class trigger: the behaviours see the event through a reference to the trigger type
                 e2 = Ev(row.evt, ev.serial)
-            if row.g:
+            if getattr(row, 'gexpr', None) is not None:
+                if not self.eval_gexpr(ms, row.gexpr, e2):
+                    res |= HG
+                    continue
+            elif row.g:
                 csrc = st.sid if ev.name is None else -1
                 if not self.callback('G', ms, row.gid, e2, csrc):
                     res |= HG
@@ -373,12 +377,30 @@ class World:
             return (res & ~HG) | self.run_action(ms, ir, e2, ev)
         return res
 
+    def eval_gexpr(self, ms: MS, x, ev: Ev):
+        """C++ semantics: ! binds tighter than &&, && tighter than ||, both short-circuit left to right"""
+        if isinstance(x, str):
+            return self.callback('G', ms, self.z.gatom[x], ev)
+        if x[0] == 'not':
+            return not self.eval_gexpr(ms, x[1], ev)
+        if x[0] == 'and':
+            return self.eval_gexpr(ms, x[1], ev) and self.eval_gexpr(ms, x[2], ev)
+        if x[0] == 'or':
+            return self.eval_gexpr(ms, x[1], ev) or self.eval_gexpr(ms, x[2], ev)
+        raise ModelError(str(x))
+
+    def do_actions(self, ms: MS, row, e2: Ev):
+        if getattr(row, 'aseq', None) is not None:
+            for a in row.aseq:
+                self.callback('A', ms, self.z.aatom[a], e2)
+        elif row.a:
+            self.callback('A', ms, row.aid, e2)
+
     def run_action(self, ms: MS, row, e2: Ev, ev: Ev):
         if row.defer:
             self.action_defer(ms, ev)
             return HD
-        if row.a:
-            self.callback('A', ms, row.aid, e2)
+        self.do_actions(ms, row, e2)
         return HT
 
     # ------------------------------------------------------------------ transitions
@@ -403,8 +425,8 @@ class World:
         if row.defer:
             self.action_defer(ms, ev)
             res = HD
-        elif row.a:
-            self.callback('A', ms, row.aid, e2)
+        else:
+            self.do_actions(ms, row, e2)
         if pol == 2:
             ms.active[r] = tgt
         self.enter_state(ms, tgt, e2, row.tgt if isinstance(row.tgt, tuple) else None)
